@@ -97,7 +97,11 @@ func (e *Engine) errorsIs(err, target IfaceV) bool {
 		if eq.IsConst() && eq.val == 1 {
 			return true
 		}
-		un := e.prog.LookupMethod(err.t, nil, "Unwrap")
+		sel := e.prog.MethodSets.MethodSet(err.t).Lookup(nil, "Unwrap")
+		if sel == nil {
+			return false
+		}
+		un := e.prog.MethodValue(sel)
 		if un == nil {
 			return false
 		}
